@@ -142,6 +142,7 @@ type UseSite struct {
 	Type   string // for UKType: Mock or Mock2
 	TONL   bool   // judged for @testonly (a call, or a listed kind of type use)
 	Core   bool
+	OnlyImporter bool // refers to the importing package's OWN unannotated item of the same name; skipped in d
 }
 
 func UseSites() []UseSite {
@@ -174,6 +175,10 @@ func UseSites() []UseSite {
 		{Tag: "shadow local Helper", Stmt: "func() { Helper := func() int { return 0 }; _ = Helper() }()", Kind: UKNone, TONL: true, Core: true},
 		{Tag: "shadow param Helper", Stmt: "func(Helper func() int) { _ = Helper() }(nil)", Kind: UKNone, TONL: true},
 		{Tag: "shadow field-func Reset()", Stmt: "struct{ Reset func() }{Reset: func() {}}.Reset()", Kind: UKNone, TONL: true},
+		// the importing package's own, unannotated items that share the names of d's annotated ones
+		{Tag: "own Helper()", Stmt: "Helper()", Kind: UKNone, TONL: true, Core: true, OnlyImporter: true},
+		{Tag: "own Mock{}", Stmt: "_ = Mock{}", Kind: UKNone, TONL: true, OnlyImporter: true},
+		{Tag: "own var Mock", Stmt: "var $v Mock; _ = $v", Kind: UKNone, TONL: true, OnlyImporter: true},
 		// reference kinds the @testonly statement does not list (judged for @packageonly only)
 		{Tag: "value Helper", Stmt: "_ = {q}Helper", Kind: UKFunc},
 		{Tag: "mvalue s.Reset", Stmt: "_ = s.Reset", Kind: UKMethod},
@@ -448,6 +453,13 @@ func RenderUse(s *UseSpec) *UseRendered {
 	}
 	w0.add("type Q struct{ K int }")
 	w0.add("")
+	if !inD {
+		w0.add("// Helper and Mock are this package's own, unannotated items; they only share their names with d's.")
+		w0.add("func Helper() int { return 0 }")
+		w0.add("")
+		w0.add("type Mock struct{ A int }")
+		w0.add("")
+	}
 	if s.Spell == SpLocalAlias {
 		// the alias declarations themselves mention the types: they are sites (first reference in the file)
 		ln := w0.add("type AMock = " + q + "Mock")
@@ -529,6 +541,9 @@ func RenderUse(s *UseSpec) *UseRendered {
 		}
 		for ord, si := range b.Stmts {
 			st := &s.Sites[si]
+			if st.OnlyImporter && inD {
+				continue
+			}
 			pre(w, "\t")
 			ln := w.add("\t" + subst(st.Stmt))
 			rec(st, st.Tag, st.Kind, st.Type, ord, ln)
